@@ -17,6 +17,12 @@ from lib.props.c08 import STRUCT, TAILS
 MORE_TAILS = [" {'a':1", "\n{'a':1", ";{'a':1", " [1,2", " f(1,", " x[1", " x.y.", " `a{1", " 'abc", ' "abc', " if 1 {2", " while 1 {", " func f(", " func f(){", " &c=", " ? 1 :",
               " 1 +", " reason text", " 理由", "　全角", " (", " ((1)", " {", " {%", " -", " !", " !=", " == 2 ==", " 2 3", "\t\n x y", " d", " 2d", " d(", " 3dk", " 2d6k", " b", " a", "a",
               " .5", " 1..", " [1..", " x=", " x==", " &", " &&", " |", " ||", " ?", " ??", " ,", " ;", " ;;", " //c", " /*", " #", " @", " $", " \\", " \x00", " \xff"]
+# complete-looking constructs that fail at the very end (a blank before a closer is not allowed), as a new statement and as an operand
+ALMOST = ["{'a':1, }", "{'a':1 }", "{'x': k=9, }", "{'a':1,\n}", "[1,2, ]", "[1 ]", "[k=9 ]", "(1 )", "(k=9 )", "abs(1 )", "abs(k=9, )", "x[1 ]", "x[k=9 ]", "x[1:2 ]",
+          "`a{1 }", "{'a':1}[ 'a' ]", "[1,2][1 ]", "{'a': [1, {'b': 2, }]}", "[[1], [2, ]]", "(1, 2)", "{'a' :1}", "{ 'a':1 ,}", "{a:1 }", "{'a':1}.a.b.( )"]
+MORE_TAILS += [pre + a for a in ALMOST for pre in (";", "\n", " + ", " ")]
+# carriage returns before an unparsable tail belong to RestInput like any other blank
+MORE_TAILS += ["\r\n（攻击）", "\r", " \r", "\r\n#check", "\r\n x y", "\t\r\n\r\n)", " \r\n \r\n理由", "\x0b", "\x0c", "\u00a0x", "\u3000"]
 ALL_TAILS = TAILS + MORE_TAILS
 
 
